@@ -21,6 +21,7 @@ type regoPathResultInternal struct {
 	paths         []string
 	variable      string
 	counter       *int
+	inverseLast   bool // the last step of this alternative is an inverse property: the variable holds a whole node
 }
 
 type traversal struct {
@@ -91,8 +92,24 @@ func generateResult(path path.PropertyPath, variable string, fetchNodes bool, ir
 func traversePath(path path.PropertyPath, variable string, fetchNodes bool, iriExpander *misc.IriExpander) []regoPathResultInternal {
 	t := newTraversal(variable)
 	var acc []regoPathResultInternal
-	for _, tr := range traverse(path, t, fetchNodes, iriExpander) {
+	alternatives := traverse(path, t, fetchNodes, iriExpander)
+	// An inverse last step yields whole nodes, a forward one the references found in the data. When the
+	// alternatives of a path end both ways, the nodes are turned into references so that a node
+	// reached by both is one value of the path.
+	forwardLast, inverseLast := false, false
+	for _, tr := range alternatives {
+		forwardLast = forwardLast || !tr.inverseLast
+		inverseLast = inverseLast || tr.inverseLast
+	}
+	mixed := !fetchNodes && forwardLast && inverseLast
+	for _, tr := range alternatives {
 		effectiveRego := tr.rego
+		if mixed && tr.inverseLast {
+			effectiveRego = append(effectiveRego, fmt.Sprintf("nodes = {\"@id\": %s[\"@id\"]}", tr.variable))
+			tr.rego = effectiveRego
+			acc = append(acc, tr)
+			continue
+		}
 		effectiveRego = append(effectiveRego, fmt.Sprintf("nodes = %s", tr.variable))
 		tr.rego = effectiveRego
 		acc = append(acc, tr)
@@ -268,6 +285,7 @@ func traverseRegularProperty(property path.Property, t traversal, fetchNodes boo
 		paths:         append(t.paths, property.Iri),
 		counter:       t.counter,
 		variable:      binding,
+		inverseLast:   property.Inverse,
 	}
 
 	return []regoPathResultInternal{r}
